@@ -677,7 +677,24 @@ func buildField(ww *conversionVisitor, node sourcewalk.FieldNode) (*descriptorpb
 			proto.SetExtension(desc.Options, ext_j5pb.E_Key, entityExt)
 		}
 
-		ww.setJ5Ext(node.Source, desc.Options, "key", st.Key.Ext)
+		keyExt := ww.setJ5Ext(node.Source, desc.Options, "key", st.Key.Ext)
+
+		// The key format is part of the key annotation, which is where the
+		// reader looks for it (validation rules alone cannot tell a custom
+		// pattern or an informal key from a string).
+		if keyExt != nil && st.Key.Format != nil {
+			keyField := keyExt.Type.(*ext_j5pb.FieldOptions_Key).Key
+			switch ff := st.Key.Format.Type.(type) {
+			case *schema_j5pb.KeyFormat_Uuid:
+				keyField.Type = &ext_j5pb.KeyField_Format_{Format: ext_j5pb.KeyField_FORMAT_UUID}
+			case *schema_j5pb.KeyFormat_Id62:
+				keyField.Type = &ext_j5pb.KeyField_Format_{Format: ext_j5pb.KeyField_FORMAT_ID62}
+			case *schema_j5pb.KeyFormat_Custom_:
+				keyField.Type = &ext_j5pb.KeyField_Pattern{Pattern: ff.Custom.Pattern}
+			case *schema_j5pb.KeyFormat_Informal_:
+				keyField.Type = &ext_j5pb.KeyField_Format_{Format: ext_j5pb.KeyField_FORMAT_UNSPECIFIED}
+			}
+		}
 
 		if st.Key.ListRules != nil {
 			var fkt list_j5pb.IsForeignKeyRules_Type
